@@ -121,6 +121,10 @@ pub struct Be<V> {
     pub seq: AtomicU64,
     pub barrier_done: Vec<AtomicU64>,
     pub exit_notifiers: Mutex<Vec<Option<EventNotifier>>>,
+    /// (descriptor number, identity) of the exit-event consumers handed to the library: the library registers them with
+    /// epoll through into_raw_fd() and never closes them, not even when the daemon is dropped.  The fixture closes them
+    /// itself afterwards (only if the number still refers to the same eventfd), or long runs exhaust the descriptor limit.
+    pub exit_consumers: Mutex<Vec<(RawFd, crate::fdtrack::FileId)>>,
     pub handle_event_calls: AtomicUsize,
     /// while true, the set_config callback does not return (C16: shutdown while inside the handler)
     pub block_set_config: std::sync::atomic::AtomicBool,
@@ -156,6 +160,7 @@ impl<V> Be<V> {
             seq: AtomicU64::new(0),
             barrier_done: (0..nthreads).map(|_| AtomicU64::new(0)).collect(),
             exit_notifiers: Mutex::new((0..nthreads).map(|_| None).collect()),
+            exit_consumers: Mutex::new(Vec::new()),
             handle_event_calls: AtomicUsize::new(0),
             block_set_config: std::sync::atomic::AtomicBool::new(false),
             in_set_config: std::sync::atomic::AtomicBool::new(false),
@@ -249,6 +254,9 @@ impl<V: VringT<GM> + Send + Sync + 'static> VhostUserBackend for Be<V> {
             return None;
         }
         let (c, n) = new_event_consumer_and_notifier(EventFlag::NONBLOCK).ok()?;
+        if let Some(id) = crate::fdtrack::file_id(c.as_raw_fd()) {
+            self.exit_consumers.lock().unwrap().push((c.as_raw_fd(), id));
+        }
         if let Ok(n2) = n.try_clone() {
             if let Some(slot) = self.exit_notifiers.lock().unwrap().get_mut(thread_index) {
                 *slot = Some(n2);
@@ -550,6 +558,7 @@ impl<V: VringT<GM> + Clone + Send + Sync + 'static> Fx<V> {
         if let Some(mut d) = self.daemon.take() {
             let _ = d.wait();
             drop(d);
+            reap_exit_consumers(&self.be);
         }
         let _ = std::fs::remove_file(&self.path);
     }
@@ -596,6 +605,18 @@ impl<V: VringT<GM> + Clone + Send + Sync + 'static> Fx<V> {
     }
 }
 
+/// close the exit-event consumers the (dropped) daemon left open (see `Be::exit_consumers`)
+pub fn reap_exit_consumers<V>(be: &Be<V>) -> usize {
+    let mut n = 0;
+    for (fd, id) in be.exit_consumers.lock().unwrap().drain(..) {
+        if crate::fdtrack::file_id(fd) == Some(id) {
+            unsafe { libc::close(fd) };
+            n += 1;
+        }
+    }
+    n
+}
+
 impl<V: VringT<GM> + Clone + Send + Sync + 'static> Drop for Fx<V> {
     fn drop(&mut self) {
         self.peer.take();
@@ -616,6 +637,7 @@ impl<V: VringT<GM> + Clone + Send + Sync + 'static> Drop for Fx<V> {
                 }
                 if h.is_finished() {
                     let _ = h.join();
+                    reap_exit_consumers(&self.be);
                 }
             }
         }
